@@ -156,6 +156,20 @@ type codecWalker struct {
 }
 
 func findFuncDecl(p *packages.Package, recvType, name string) *ast.FuncDecl {
+	if fd := findFuncDeclExact(p, recvType, name); fd != nil {
+		return fd
+	}
+	// the function may only have been renamed since the baseline
+	for id, old := range renamedFuncs {
+		parts := strings.Split(id, " ")
+		if len(parts) == 3 && old == name && parts[0] == p.PkgPath && parts[1] == recvType {
+			return findFuncDeclExact(p, recvType, parts[2])
+		}
+	}
+	return nil
+}
+
+func findFuncDeclExact(p *packages.Package, recvType, name string) *ast.FuncDecl {
 	for _, f := range p.Syntax {
 		for _, d := range f.Decls {
 			fd, ok := d.(*ast.FuncDecl)
